@@ -10,8 +10,8 @@
      server/control.go       ControlManager.Add/Del/GetByID, NewControl (pool clamp), RegisterWorkConn (pool),
                              handlePing, handleNewProxy/RegisterProxy, handleCloseProxy, worker (teardown),
                              heartbeatWorker
-   The server plugin hooks (pluginManager.Login/Ping/NewWorkConn/NewProxy) are the identity here
-   (no plugin configured); their chain is property C15's subject. *)
+   The NewWorkConn plugin chain is an oracle argument of the event (verification runs on ITS output, as in the
+   code); the Login / Ping / NewProxy hooks are the identity here (C15 owns the chain). *)
 From FRP Require Export Model.Bytes.
 Open Scope Z_scope.
 
@@ -93,8 +93,9 @@ Definition au_verifier_eqb (a b : au_verifier) : bool :=
 Section Auth.
   (* GetAuthKey(token, ts) = hex(md5(token ++ decimal ts)): the hash is external *)
   Variable H : bytes -> Z -> bytes.
-  (* TokenVerifier.Verify: bearer token -> subject, or an error *)
-  Variable oidc : bytes -> option bytes.
+  (* TokenVerifier.Verify: bearer token, at the time of the call -> subject, or an error (expiry, key
+     rotation and revocation make the answer time-dependent; the verifier is consulted on EVERY message) *)
+  Variable oidc : bytes -> Z -> option bytes.
 
   Definition au_key (token : bytes) (ts : Z) : bytes := H token ts.
 
@@ -111,55 +112,55 @@ Section Auth.
     else if negb (au_ct_eq (au_key (ac_token c) ts) k) then Some AuErrTokenWork else None.
 
   (* -- oidc.go; [subjects] is OidcAuthConsumer.subjectsFromLogin, ONE list per server -- *)
-  Definition au_oidc_verify_login (subjects : list bytes) (k : bytes) : au_vres :=
-    match oidc k with
+  Definition au_oidc_verify_login (subjects : list bytes) (now : Z) (k : bytes) : au_vres :=
+    match oidc k now with
     | None => AuVErr AuErrOidcLogin
     | Some sub => if negb (au_mem sub subjects) then AuVOk (subjects ++ [sub]) else AuVOk subjects
     end.
 
-  Definition au_oidc_post_login (subjects : list bytes) (k : bytes) : option au_verr :=
-    match oidc k with
+  Definition au_oidc_post_login (subjects : list bytes) (now : Z) (k : bytes) : option au_verr :=
+    match oidc k now with
     | None => Some AuErrOidcInvalid
     | Some sub => if negb (au_mem sub subjects) then Some AuErrOidcSubject else None
     end.
 
-  Definition au_oidc_verify_ping (c : au_cfg) (subjects : list bytes) (k : bytes) : option au_verr :=
-    if negb (au_has_scope AuScHeartBeats (ac_scopes c)) then None else au_oidc_post_login subjects k.
+  Definition au_oidc_verify_ping (c : au_cfg) (subjects : list bytes) (now : Z) (k : bytes) : option au_verr :=
+    if negb (au_has_scope AuScHeartBeats (ac_scopes c)) then None else au_oidc_post_login subjects now k.
 
-  Definition au_oidc_verify_workconn (c : au_cfg) (subjects : list bytes) (k : bytes) : option au_verr :=
-    if negb (au_has_scope AuScNewWorkConns (ac_scopes c)) then None else au_oidc_post_login subjects k.
+  Definition au_oidc_verify_workconn (c : au_cfg) (subjects : list bytes) (now : Z) (k : bytes) : option au_verr :=
+    if negb (au_has_scope AuScNewWorkConns (ac_scopes c)) then None else au_oidc_post_login subjects now k.
 
   (* -- the auth.Verifier interface: dynamic dispatch on the verifier a session holds -- *)
-  Definition au_verify_login (c : au_cfg) (v : au_verifier) (subjects : list bytes) (l : au_login) : au_vres :=
+  Definition au_verify_login (c : au_cfg) (v : au_verifier) (subjects : list bytes) (now : Z) (l : au_login) : au_vres :=
     match v with
     | AuAlwaysPass => AuVOk subjects
     | AuConfigured =>
         match ac_method c with
         | AuToken => match au_tok_verify_login c (al_ts l) (al_key l) with
                      | Some e => AuVErr e | None => AuVOk subjects end
-        | AuOidc => au_oidc_verify_login subjects (al_key l)
+        | AuOidc => au_oidc_verify_login subjects now (al_key l)
         end
     end.
 
-  Definition au_verify_ping (c : au_cfg) (v : au_verifier) (subjects : list bytes) (k : bytes) (ts : Z)
+  Definition au_verify_ping (c : au_cfg) (v : au_verifier) (subjects : list bytes) (now : Z) (k : bytes) (ts : Z)
     : option au_verr :=
     match v with
     | AuAlwaysPass => None
     | AuConfigured =>
         match ac_method c with
         | AuToken => au_tok_verify_ping c ts k
-        | AuOidc => au_oidc_verify_ping c subjects k
+        | AuOidc => au_oidc_verify_ping c subjects now k
         end
     end.
 
-  Definition au_verify_workconn (c : au_cfg) (v : au_verifier) (subjects : list bytes) (k : bytes) (ts : Z)
+  Definition au_verify_workconn (c : au_cfg) (v : au_verifier) (subjects : list bytes) (now : Z) (k : bytes) (ts : Z)
     : option au_verr :=
     match v with
     | AuAlwaysPass => None
     | AuConfigured =>
         match ac_method c with
         | AuToken => au_tok_verify_workconn c ts k
-        | AuOidc => au_oidc_verify_workconn c subjects k
+        | AuOidc => au_oidc_verify_workconn c subjects now k
         end
     end.
 
@@ -241,10 +242,21 @@ Section Auth.
 
   (* ---- events ------------------------------------------------------------------------ *)
 
+  (* outcome of the server plugin chain pluginManager.NewWorkConn on a NewWorkConn content (C15 owns the chain;
+     here it is an oracle): unchanged, content rewritten (the credential fields), or rejected / unreachable *)
+  Inductive au_plug := AuPlugSame | AuPlugRewrite (key : bytes) (ts : Z) | AuPlugReject.
+
+  Definition au_plug_apply (p : au_plug) (key : bytes) (ts : Z) : option (bytes * Z) :=
+    match p with
+    | AuPlugSame => Some (key, ts)
+    | AuPlugRewrite k' ts' => Some (k', ts')
+    | AuPlugReject => None
+    end.
+
   (* first message on a fresh connection (handleConnection's type switch) *)
   Inductive au_first :=
   | AuFLogin (l : au_login)
-  | AuFWorkConn (rid key : bytes) (ts : Z)
+  | AuFWorkConn (rid key : bytes) (ts : Z) (plug : au_plug)
   | AuFVisitor (rid : bytes) (vm_ok : bool)   (* vm_ok: VisitorManager.NewConn's verdict (C08's subject), an oracle here *)
   | AuFOther (ty : Z).                        (* any other registered message type (its type byte) *)
 
@@ -266,6 +278,7 @@ Section Auth.
   | AuRLogin (e : au_verr)          (* LoginResp{Error}, connection closed *)
   | AuRWorkUnknownRun               (* connection closed, nothing sent *)
   | AuRWorkAuth (e : au_verr)       (* StartWorkConn{Error}, connection closed *)
+  | AuRWorkPlugin                   (* StartWorkConn{Error} (plugin chain refused), connection closed *)
   | AuRWorkPoolFull                 (* connection closed, nothing sent *)
   | AuRVisitorUnknownRun            (* NewVisitorConnResp{Error}, closed *)
   | AuRVisitorRefused               (* NewVisitorConnResp{Error}, closed *)
@@ -308,7 +321,7 @@ Section Auth.
         (* RegisterControl *)
         let l := au_effective_login l0 gen in
         let v := au_choose_verifier internal (al_spec l) in
-        match au_verify_login c v (at_subjects s) l with
+        match au_verify_login c v (at_subjects s) now l with
         | AuVErr e => (s, AuORefused (AuRLogin e))
         | AuVOk subj =>
             let x := {| as_sid := at_next s; as_rid := al_rid l; as_login := l; as_internal := internal;
@@ -324,19 +337,24 @@ Section Auth.
                 at_subjects := subj; at_next := at_next s + 1 |},
              AuOLoginOk (al_rid l) (at_next s))
         end
-    | AuFWorkConn rid key ts =>
-        (* Service.RegisterWorkConn then Control.RegisterWorkConn *)
+    | AuFWorkConn rid key0 ts0 plug =>
+        (* Service.RegisterWorkConn: run id lookup, plugin chain, verification of what the CHAIN returned,
+           then Control.RegisterWorkConn *)
         match au_find_rid rid (at_sessions s) with
         | None => (s, AuORefused AuRWorkUnknownRun)
         | Some x =>
-            match au_verify_workconn c (as_verifier x) (at_subjects s) key ts with
-            | Some e => (s, AuORefused (AuRWorkAuth e))
-            | None =>
-                if Z.of_nat (length (as_pool x)) <? as_pool_cap x then
-                  ({| at_sessions := au_set_session (au_upd_pool x (as_pool x ++ [conn])) (at_sessions s);
-                      at_pxys := at_pxys s; at_subjects := at_subjects s; at_next := at_next s |},
-                   AuOWorkPooled)
-                else (s, AuORefused AuRWorkPoolFull)
+            match au_plug_apply plug key0 ts0 with
+            | None => (s, AuORefused AuRWorkPlugin)
+            | Some (key, ts) =>
+                match au_verify_workconn c (as_verifier x) (at_subjects s) now key ts with
+                | Some e => (s, AuORefused (AuRWorkAuth e))
+                | None =>
+                    if Z.of_nat (length (as_pool x)) <? as_pool_cap x then
+                      ({| at_sessions := au_set_session (au_upd_pool x (as_pool x ++ [conn])) (at_sessions s);
+                          at_pxys := at_pxys s; at_subjects := at_subjects s; at_next := at_next s |},
+                       AuOWorkPooled)
+                    else (s, AuORefused AuRWorkPoolFull)
+                end
             end
         end
     | AuFVisitor rid vm_ok =>
@@ -351,7 +369,7 @@ Section Auth.
   Definition au_step_later (s : au_state) (x : au_session) (now : Z) (m : au_later) : au_state * au_out :=
     match m with
     | AuLPing key ts =>
-        match au_verify_ping c (as_verifier x) (at_subjects s) key ts with
+        match au_verify_ping c (as_verifier x) (at_subjects s) now key ts with
         | Some e => (s, AuOPongErr e)
         | None =>
             ({| at_sessions := au_set_session (au_upd_ping x now) (at_sessions s);
@@ -409,18 +427,18 @@ Section Auth.
   (* ---- the property's vocabulary (simple specification side) ---------------------------- *)
 
   (* "the peer presented the configured credential" for a login: independent of server state *)
-  Definition au_login_cred_ok (l : au_login) : bool :=
+  Definition au_login_cred_ok (now : Z) (l : au_login) : bool :=
     match ac_method c with
     | AuToken => bytes_eqb (al_key l) (au_key (ac_token c) (al_ts l))
-    | AuOidc => match oidc (al_key l) with Some _ => true | None => false end
+    | AuOidc => match oidc (al_key l) now with Some _ => true | None => false end
     end.
 
   (* credential of a per-message scope (ping / work connection): key of the token, or an OIDC token of a subject
      that logged in *)
-  Definition au_msg_cred_ok (subjects : list bytes) (k : bytes) (ts : Z) : bool :=
+  Definition au_msg_cred_ok (subjects : list bytes) (now : Z) (k : bytes) (ts : Z) : bool :=
     match ac_method c with
     | AuToken => bytes_eqb k (au_key (ac_token c) ts)
-    | AuOidc => match oidc k with Some sub => au_mem sub subjects | None => false end
+    | AuOidc => match oidc k now with Some sub => au_mem sub subjects | None => false end
     end.
 
   (* what "this session was admitted on a verified login" means: its verifier is the one RegisterControl
@@ -429,14 +447,14 @@ Section Auth.
   Definition au_session_verified (x : au_session) : Prop :=
     as_verifier x = au_choose_verifier (as_internal x) (al_spec (as_login x)) /\
     as_rid x = al_rid (as_login x) /\
-    ((as_verifier x = AuConfigured /\ au_login_cred_ok (as_login x) = true) \/
+    ((as_verifier x = AuConfigured /\ exists t, au_login_cred_ok t (as_login x) = true) \/
      (as_verifier x = AuAlwaysPass /\ as_internal x = true /\ asp_always_pass (al_spec (as_login x)) = true)).
 
   (* does the event address session x (its run id for first messages, its Control for later ones)? *)
   Definition au_addresses (e : au_event) (x : au_session) : bool :=
     match e with
     | AuEFirst _ _ _ gen (AuFLogin l0) => bytes_eqb (al_rid (au_effective_login l0 gen)) (as_rid x)
-    | AuEFirst _ _ _ _ (AuFWorkConn rid _ _) => bytes_eqb rid (as_rid x)
+    | AuEFirst _ _ _ _ (AuFWorkConn rid _ _ _) => bytes_eqb rid (as_rid x)
     | AuEFirst _ _ _ _ _ => false
     | AuELater sid _ _ => sid =? as_sid x
     | AuEClose sid => sid =? as_sid x
